@@ -103,7 +103,7 @@ WsSites(L) == IF ElementOnly(L) THEN {j \in 2..Len(L) : TRUE} ELSE {}
 \* (a comment is inserted between two characters, never inside a multi-byte character)
 TextSites(L) == {j \in 1..Len(L) : L[j][1] = "Text" /\ Len(L[j][2]) >= 2 /\ \A i \in 1..Len(L[j][2]) : L[j][2][i] < 128}
 \* unknown children may be added only to element-only content of a struct that ignores unknown fields
-UnkChildOk(tyn) == tyn \in {"F02", "F03", "F05", "F11", "F18", "F19", "F20", "F22", "F23"}
+UnkChildOk(tyn) == tyn \in {"F02", "F03", "F05", "F11", "F18", "F19", "F20", "F22", "F23", "F29"}
 
 \* every single rewrite of the listed kinds
 Rewrites(L, tyn) ==
@@ -135,8 +135,8 @@ InvisibleToEvents(st) == ~st.unkAttr /\ ~st.unkFirst /\ ~st.unkLast
 \* ---------------------------------------------------------------- interleavings
 \* children of the root element of a logical document, as [name, lo, hi] index ranges into L
 \* list fields of the element named nm at nesting depth d (0 = root) of family type tyn
-ListFields(tyn) == IF tyn = "F22" THEN {n_a, n_b} ELSE IF tyn = "F23" THEN {n_a, n_b, n_d} ELSE IF tyn = "F26" THEN {n_a, n_b} ELSE {}
-InnerLists(tyn, nm) == IF tyn = "F26" /\ nm = n_a THEN {n_a, n_b} ELSE IF tyn = "F23" /\ nm = n_b THEN {n_a} ELSE {}
+ListFields(tyn) == IF tyn = "F22" THEN {n_a, n_b} ELSE IF tyn = "F23" THEN {n_a, n_b, n_d} ELSE IF tyn = "F26" THEN {n_a, n_b} ELSE IF tyn = "F29" THEN {n_a, n_b, n_d} ELSE {}
+InnerLists(tyn, nm) == IF tyn = "F26" /\ nm = n_a THEN {n_a, n_b} ELSE IF tyn = "F23" /\ nm = n_b THEN {n_a} ELSE IF tyn = "F29" /\ nm = n_b THEN {n_b} ELSE {}
 RECURSIVE ChildrenIn(_, _, _, _)
 ChildrenIn(L, j, stop, tyn) ==      \* children whose Start is at index j.. below index stop (the parent's End)
     IF j >= stop THEN <<>>
